@@ -240,7 +240,10 @@ func (w *world) exec(line string) string {
 		for _, m := range ov {
 			w.nodes[1].d.NotifyMsg(m)
 		}
-		return fmt.Sprintf("gossiped=%d oversize=%d %s", g, len(ov), w.nodes[1].dump())
+		w.mu.Lock()
+		snd := w.sends
+		w.mu.Unlock()
+		return fmt.Sprintf("gossiped=%d oversize=%d sends=%d %s", g, len(ov), snd, w.nodes[1].dump())
 	}
 	panic("bad op " + line)
 }
@@ -363,7 +366,7 @@ func runCase(t *testing.T, tr *hx.Trace, id int, r *rand.Rand, script []string) 
 			case x < 13:
 				do(fmt.Sprintf("exchange %d %d", node, 1-node))
 			case x < 17:
-				pad := []int{0, 0, 600, 660, 670, 680, 690, 700, 800, 2000}[r.IntN(10)]
+				pad := []int{0, 0, 600, 670 + r.IntN(31), 670 + r.IntN(31), 670 + r.IntN(31), 675 + r.IntN(12), 700, 800, 2000}[r.IntN(10)]
 				p := genPayload()
 				if p == "bad" {
 					p = "e:a=9"
